@@ -21,6 +21,7 @@ mod tdcheck;
 mod c03;
 mod c14;
 mod mcutil;
+mod hist;
 
 fn main() {
     explore::install_panic_hook();
